@@ -9,14 +9,18 @@ OFFS = [-6, -4, -3, -2, -1, 0, 1, 2, 3, 4, 6]
 
 
 def spec_strategy(offs=OFFS, market_orders=True, cancels=True, offgrid=True, volumes=(1, 4), ttls=(None, 1, 2, 5),
-                  own_cancel=True, illegal=False):
+                  own_cancel=True, illegal=False, n_mi=4, rel_fracs=None, edge_rates=None):
     off = st.sampled_from(offs)
     if offgrid:
         off = st.one_of(off, off, st.floats(min_value=min(offs), max_value=max(offs), allow_nan=False))
     vol = st.integers(*volumes)
     ttl = st.sampled_from(list(ttls))
-    mi = st.integers(0, 3)
+    mi = st.integers(0, n_mi - 1)
     alts = [st.tuples(st.just("L"), mi, st.booleans(), off, vol, ttl)] * 7
+    if rel_fracs:
+        alts += [st.tuples(st.just("P"), mi, st.booleans(), st.sampled_from(list(rel_fracs)), vol, ttl)] * 4
+    if edge_rates:
+        alts += [st.tuples(st.just("E"), mi, st.booleans(), st.sampled_from(list(edge_rates)), vol, ttl)] * 2
     if market_orders:
         alts += [st.tuples(st.just("M"), mi, st.booleans(), vol, ttl)]
     if cancels:
@@ -29,9 +33,21 @@ def spec_strategy(offs=OFFS, market_orders=True, cancels=True, offgrid=True, vol
     return st.one_of(*alts).map(list)
 
 
-def program_strategy(spec, max_actions=5, max_specs=3, decline_weight=1):
-    action = st.one_of(*([st.just([])] * decline_weight + [st.lists(spec, min_size=1, max_size=max_specs)] * 3))
-    return st.lists(action, min_size=1, max_size=max_actions)
+@st.composite
+def program_strategy(draw, spec, max_actions=5, max_specs=3, decline_weight=1):
+    """a program: 2..max_actions actions, each either a decline ([]) or 1..max_specs order/cancel specs.
+    Lengths are drawn explicitly so that programs are not dominated by Hypothesis' preference for tiny lists."""
+    n = draw(st.integers(min_value=min(2, max_actions), max_value=max_actions))
+    out = []
+    for _ in range(n):
+        if decline_weight and draw(st.integers(0, 2 + decline_weight)) < decline_weight:
+            out.append([])
+        else:
+            k = draw(st.integers(1, max_specs))
+            out.append(draw(st.lists(spec, min_size=k, max_size=k)))
+    if all(len(a) == 0 for a in out):
+        out[0] = [draw(spec)]
+    return out
 
 
 @st.composite
@@ -166,3 +182,11 @@ def add_builtin_agents(draw, cfg, names, all_markets, kinds=("fcn", "msfcn", "ma
                              "cashAmount": 10000, "orderVolume": 1, "orderThresholdPrice": draw(st.sampled_from([0.5, 1.0, 5.0])),
                              "orderTimeLength": draw(st.integers(1, 3))}
                 cfg["simulation"]["agents"].append("BA")
+
+
+def crossing_pair(markets, ttl=3, volume=1):
+    """a deterministic background group of two agents that alternately bid above and offer below the market price on
+    every listed market, so that trades (and price moves) happen whenever the session executes."""
+    n = len(markets)
+    prog = [[["L", i, True, 1, volume, ttl]] for i in range(n)] + [[["L", i, False, -1, volume, ttl]] for i in range(n)]
+    return {"class": "VScriptedAgent", "numAgents": 2, "markets": list(markets), "assetVolume": 10, "cashAmount": 1000, "scripts": [prog]}
